@@ -181,7 +181,7 @@ impl Scenario for RomLoadFaults {
     }
     fn info(&self) -> Info {
         Info {
-            rule: "one case = a generated cartridge file (random title/licensee bytes, type, ROM/RAM size codes, valid checksum, every 16 KiB bank carrying its index, a boot stub that selects the last declared ROM bank and sends its index byte, a write/read-back of the last byte of the last declared RAM bank, and 'OK' over the serial port) damaged by one file fault: length (0, 1, 0xFF..0x150, declared-4097..+1, random prefixes), torn write (correct prefix then zeros/0xFF), single-bit flips in each checksummed byte and the checksum byte, checksum byte over all 256 values (round-robin), compensating double change, header declaring a larger ROM than the file holds, type byte over all 256 values (round-robin), size codes outside the tables, bad paths; the real executable (jit / non-jit build alternately) loads it with an update budget and its exit status, stdout and stderr are classified as rejected / controlled termination at load / accepted (banner + the stub's expected bytes) / fault (signal, or a panic raised from mem.rs, interpreter or cache after execution began), and compared with what RefHeader admits. 1 case in 4 also compares Header::valid_checksum/get_rom_size_bytes/get_ram_size_bytes/create_cart_state in process. distinct_nontrivial = distinct (fault kind, argument class, type, size codes, outcome class)",
+            rule: "one case = a generated cartridge file (random title/licensee bytes, type, ROM/RAM size codes, valid checksum, every 16 KiB bank carrying its index, a boot stub that selects the last declared ROM bank and sends its index byte, a write/read-back of the last byte of the last declared RAM bank, and 'OK' over the serial port) damaged by one file fault: length (0, 1, 0xFF..0x150, declared-4097..+1, random prefixes), torn write (correct prefix then zeros/0xFF), single-bit flips in each checksummed byte and the checksum byte, checksum byte over all 256 values (round-robin), compensating double change, header declaring a larger ROM than the file holds, type byte over all 256 values (round-robin), size codes outside the tables, bad paths; the real executable (jit / non-jit build alternately) loads it with an update budget and its exit status, stdout and stderr are classified as rejected (the stub never ran) / controlled termination at load / accepted (the stub's size-revealing bytes at the end of stdout) / fault (signal, or a panic raised from mem.rs, interpreter or cache after execution began), and compared with what RefHeader admits. 1 case in 4 also compares Header::valid_checksum/get_rom_size_bytes/get_ram_size_bytes/create_cart_state in process. distinct_nontrivial = distinct (fault kind, argument class, type, size codes, outcome class)",
             components_real: &["the real executable: main.rs::load_rom, system::open_rom_file/read_header/get_rom_buffer, map_rom_file (mmap), Header::*, MemoryAreas::with_rom_file, headless shell", "cart::Header methods in process (non-jit shadow crate)"],
             components_stub: &["file system = regular files written by the simulator under /verif/work", "run length bounded by the H4 update budget"],
             assumptions: &["size codes outside the header tables: only 'no fault' is asserted", "torn writes keep the boot stub intact (prefix >= 0x200) or destroy the header (prefix < 0x14E): a file whose header is valid but whose code is garbage is accepted by definition and what it executes is not this property's subject", "MBC1/MBC3 can address at most 128 banks: for larger declared sizes the stub selects bank (count-1) & 0x7F"],
@@ -358,8 +358,10 @@ impl Scenario for RomLoadFaults {
         };
         let _ = std::fs::remove_file(&path);
         let stderr = String::from_utf8_lossy(&se).to_string();
-        let fallback = so.windows(24).any(|w| w == b"No ROM, loading fallback");
-        let loading = so.starts_with(b"Loading \"");
+        // classification does not depend on the wording of the loader's messages: a file was accepted iff the boot stub ran
+        // (its serial output ends with "OK"; the built-in fallback program ends with "GB")
+        let loading = so.ends_with(b"OK");
+        let fallback = !loading;
         // (thread ids in the message differ from run to run: keep the location only)
         let panic_loc = stderr.lines().find(|l| l.contains("panicked at")).map(|l| l.split("panicked at").nth(1).unwrap_or("").trim().to_string()).unwrap_or_default();
         let load_path_panic = panic_loc.contains("src/cart.rs") || panic_loc.contains("src/system") || panic_loc.contains("src/main.rs");
@@ -419,16 +421,18 @@ impl Scenario for RomLoadFaults {
                     let end = t11.iter().rposition(|c| *c != 0).map(|i| i + 1).unwrap_or(0);
                     String::from_utf8_lossy(&t11[..end]).to_string()
                 };
-                let mut expect: Vec<u8> = format!("Loading \"{}\"\n", title).into_bytes();
+                let _ = title;
+                let mut expect: Vec<u8> = Vec::new();
                 expect.push(id);
                 if ram > 0 {
                     expect.push(0x5a);
                 }
                 expect.extend(b"OK");
-                if so != expect {
+                // (whatever the loader printed before the ROM started is not this property's subject)
+                if !so.ends_with(&expect) {
                     let which = if so.len() > expect.len() - 2 - (ram > 0) as usize - 1 && so.get(expect.len() - 3 - (ram > 0) as usize) != Some(&id) { "rom-size" } else { "sizes" };
                     let _ = which;
-                    out.push(Violation::new("C19", format!("C19/wrong-sizes-observed/{}/{}", fname, build), format!("{}; expected stdout {:?} (last ROM bank id {:#04x}{})", describe, String::from_utf8_lossy(&expect), id, if ram > 0 { ", RAM read-back 0x5a" } else { "" })));
+                    out.push(Violation::new("C19", format!("C19/wrong-sizes-observed/{}/{}", fname, build), format!("{}; expected stdout to end with {:02x?} (last ROM bank id {:#04x}{})", describe, expect, id, if ram > 0 { ", RAM read-back 0x5a" } else { "" })));
                 }
             }
             (Want::Accept, _) => out.push(bad("rejected-valid-file")),
